@@ -6,6 +6,13 @@ for d, _, files in os.walk(shims):
     for f in files:
         if f.endswith(".go"):
             rep[os.path.join("/repo", os.path.relpath(d, shims), f)] = os.path.join(d, f)
+import subprocess
+goroot = subprocess.run(["go", "env", "GOROOT"], capture_output=True, text=True).stdout.strip()
+std = "/verif/shims_std"
+for d, _, files in os.walk(std):
+    for f in files:
+        if f.endswith(".go"):
+            rep[os.path.join(goroot, "src", os.path.relpath(d, std), f)] = os.path.join(d, f)
 os.makedirs("/verif/.work", exist_ok=True)
 json.dump({"Replace": rep}, open("/verif/.work/overlay.json", "w"))
 print(len(rep), "shims")
